@@ -351,7 +351,7 @@ pub fn run_c16(tier: &str) -> i32 {
                                     rep.violate(
                                         "text-modified",
                                         format!("directive-free source {:?} tn={tn}: {} output {:?}, expected {:?}", show(&src), r.v.kind(), r.out.as_ref().map(|x| show(x)), show(&want)),
-                                        rj("C16", &src, json!({"tn": tn, "part": "a"})),
+                                        rj("C16", &src, json!({"tn": tn, "part": "a", "expected_b64": b64(&want)})),
                                     );
                                 }
                             }
@@ -401,7 +401,7 @@ pub fn run_c16(tier: &str) -> i32 {
                                 rep.violate(
                                     "write-not-inert",
                                     format!("write-escape of {:?} (source {:?}): {} output {:?}, expected {:?}", text, show(&src), r.v.kind(), r.out.as_ref().map(|x| show(x)), show(&want)),
-                                    rj("C16", &src, json!({"tn": true, "part": "b"})),
+                                    rj("C16", &src, json!({"tn": true, "part": "b", "expected_b64": b64(&want)})),
                                 );
                             }
                             shapes.insert(format!("b:{}", (with_tag as u8) | (any_dir as u8) << 1));
@@ -494,8 +494,25 @@ pub fn replay(v: &serde_json::Value) -> bool {
             let tn = v["extra"]["tn"].as_bool().unwrap_or(true);
             let r = b.run(&src, Mode::Build, true, tn);
             println!("replay source {:?} tn={tn}: {} out={:?}", show(&src), r.v.kind(), r.out.as_ref().map(|x| show(x)));
-            println!("  (compare with the expected bytes recorded in the replay file's message)");
-            return true;
+            if let Some(e) = v["extra"]["expected_b64"].as_str() {
+                let want = unb64(e);
+                println!("  expected {:?}", show(&want));
+                return r.v != V::Ok || r.out.as_deref() != Some(&want[..]);
+            }
+            // part (c): ordinary lines in order
+            let hb = Bench::new(&helpers());
+            let r = hb.run(&src, Mode::Build, true, true);
+            if let (Ok(m), V::Ok) = (hb.model(&src, true), &r.v) {
+                let out = String::from_utf8_lossy(r.out.as_deref().unwrap_or_default()).to_string();
+                let mut pos = 0;
+                for l in &m.text_lines {
+                    match out[pos..].find(l.as_str()) {
+                        Some(i) => pos += i + l.len(),
+                        None => return true,
+                    }
+                }
+            }
+            return false;
         }
     }
     for v in rep.violations.lock().unwrap().iter() {
